@@ -3,7 +3,7 @@ import numpy as np
 
 from engine import bind
 
-from .common import Frame, make_shell, tag
+from .common import Frame, PathLog, make_shell, tag
 
 
 def _shell(M, pfx, l, K, Mn, coord):
@@ -170,7 +170,7 @@ class IsScreenedAnyK:
         s1, s2 = _shell(M, "p", 0, Ka, 1, A), _shell(M, "q", 1, Kb, 1, B)
         amin, bmin = M.pos("amin"), M.pos("bmin")
         eps = M.pos("eps")
-        calls = []
+        calls = PathLog()
 
         def min_contract(seq):
             calls.append(seq)
@@ -181,12 +181,12 @@ class IsScreenedAnyK:
             raise AssertionError("min() called on something that is not the exponent array of one of the two shells")
 
         def body():
-            del calls[:]
+            calls.begin()
             with bind.patched((ov, "min", min_contract)):
                 return ov.is_integral_screened(s1, s2, M.scalar(eps))
 
         paths = M.paths(body, assumptions=[M.atom(eps, "<", 1)] if M.symbolic else ())
-        M.true("screened_anyK/pre@min", len(calls) == 2 and calls[0] is s1.exps and calls[1] is s2.exps, "smallest exponent of each shell requested")
+        M.true("screened_anyK/pre@min", calls.every(lambda cs: len(cs) == 2 and cs[0] is s1.exps and cs[1] is s2.exps), "smallest exponent of each shell requested (on every path)")
         sA, sB = M.to_spec(A), M.to_spec(B)
         sa, sb = (M.to_spec(amin), M.to_spec(bmin)) if not M.symbolic else (amin, bmin)
         seps = M.to_spec(eps) if not M.symbolic else eps
